@@ -241,3 +241,28 @@ def index_model(run, prop="C04"):
     run.extra["index_model_bounds"] = [dict(nkeys=b[0], maxops=b[1], capacities=b[2], loadfactors=b[3]) for b in bounds]
     cases_path, n = emit_cases(run, prop, outs)
     replay_cases(run, prop, cases_path, n, "replay-calc", "TraceCalc.tla", pipelines.CALC_CFG % ('"%s"' % prop), per_shard=500)
+
+
+# ------------------------------------------------------------------------------------------------
+# NNI neighbourhood: NNIModel.tla
+
+NNI_MODEL_CFG = """SPECIFICATION Spec
+CONSTANTS
+  NTips = %d
+  Emit = TRUE
+INVARIANTS TwoPerInnerBranch PairwiseDistinct OneSplitEachWay EmitCase
+CHECK_DEADLOCK FALSE
+"""
+
+
+def nni_model(run):
+    import pipelines
+    sizes = [4, 5] if run.tier == "quick" else [4, 5, 6]
+    outs = [vk.run_model(run, "NNIModel-%d" % n, "NNIModel.tla", NNI_MODEL_CFG % n, workers=8, heap="6g") for n in sizes]
+    cases_path, n = emit_cases(run, "C17", outs)
+    run.extra["model_bounds"] = [dict(binary_trees_with_tips=k, every_inner_node_as_root=True) for k in sizes]
+    res = replay_cases(run, "C17", cases_path, n, "replay-edit", "TraceEdit.tla", pipelines.TRACE_CFG % ('"C17"', "TRUE"), per_shard=25)
+    for r in res:
+        for k, v in r["summary"].get("ops", {}).items():
+            d = run.extra.setdefault("ops_executed_on_real_code", {})
+            d[k] = d.get(k, 0) + v
